@@ -845,6 +845,36 @@ func c08Untransformed(c *Ctx, p *Prog) {
 			}
 		}
 	})
+	if gmp == "" && len(bools) == 2 {
+		// the '-' test may sit in a helper: then the GOMAXPROCS switch is the one consulted next to the search for '-' in
+		// the name (the pre-check), or the one handed to a helper that tests a byte against '-'
+		eachInstr(fn, func(_ *ssa.BasicBlock, in ssa.Instruction) {
+			call, ok := in.(*ssa.Call)
+			if !ok {
+				return
+			}
+			sc := call.Call.StaticCallee()
+			if sc == nil || sc.Pkg != fn.Pkg || sc.Blocks == nil {
+				return
+			}
+			dash := false
+			eachInstr(sc, func(_ *ssa.BasicBlock, in2 ssa.Instruction) {
+				if bo, ok := in2.(*ssa.BinOp); ok && bo.Op == token.EQL {
+					if k, ok := constInt(bo.Y); ok && k == '-' {
+						dash = true
+					}
+				}
+			})
+			if !dash {
+				return
+			}
+			for _, a := range call.Call.Args {
+				if prm, ok := a.(*ssa.Parameter); ok && isBoolean(prm.Type()) {
+					gmp = "param:" + prm.Name()
+				}
+			}
+		})
+	}
 	if gmp == "" || len(bools) != 2 {
 		c.Undecided(R, "anchor:exclusion switches", site, "cannot tell the name switch from the GOMAXPROCS switch")
 		return
